@@ -67,4 +67,5 @@ T_MechOK          == IsPair => D_MechOK(c.a2, c.a4)
 T_KF_A_Tight      == IsPair => D_KF_A_Tight(c.a2, c.a4)
 T_KF_B_Tight      == IsPair => D_KF_B_Tight(c.a2, c.a4)
 T_KF_Disjoint     == IsPair => D_KF_Disjoint(c.a2, c.a4)
+T_MechFixedOK     == IsPair => D_MechFixedOK(c.a2, c.a4)
 =============================================================================
